@@ -75,10 +75,17 @@ type c12Args struct {
 	held      []Hash
 	stream    []byte
 	pos       uint64
+	lhp       []Hash
 }
 
 func c12Call(m *MapPollard, method int, a *c12Args) {
 	switch method {
+	case -1:
+		// native replay partner for lock-discipline findings: a writer that keeps asking for the lock
+		for i := 0; i < 2000; i++ {
+			m.rwLock.Lock()
+			m.rwLock.Unlock()
+		}
 	case 0:
 		m.Modify(a.leaves, a.hashes, a.proof)
 	case 1:
@@ -116,7 +123,7 @@ func c12Call(m *MapPollard, method int, a *c12Args) {
 	case 15:
 		m.GetStump()
 	case 16:
-		m.GetLeafHashPositions(a.selHashes)
+		m.GetLeafHashPositions(a.lhp)
 	case 17:
 		m.Write(&symWriter{failAt: -1})
 	case 18:
@@ -148,13 +155,22 @@ func c12Setup() (*MapPollard, *c12Args) {
 		r := w.recs[len(w.recs)-1]
 		a.undoB, a.prevRoots = r.b, r.prevRoots
 	}
-	sel := refPickCombo("sel", w.rm.liveSlots(), 1)
+	// exactly one selected live leaf whenever there is one (so that writers really write)
+	var sel []int
+	if live := w.rm.liveSlots(); len(live) > 0 {
+		sel = []int{live[verifChoose("sel", 0, len(live)-1)]}
+	}
 	a.selProof, a.selHashes, _ = c14Proof(w.rm, v, sel)
 	a.held = c02Hashes(w.rm, tracked)
 	sw := &symWriter{failAt: -1}
 	m.Write(sw)
 	a.stream = sw.data
 	a.pos = verifNondetU64("pos")
+	// GetLeafHashPositions gets the selected hash several times (native replay raises lhpN so that a
+	// waiting writer can arrive between two iterations)
+	for i := 0; i < verifParam("lhpN", 2) && len(a.selHashes) > 0; i++ {
+		a.lhp = append(a.lhp, a.selHashes[0])
+	}
 	return m, a
 }
 
